@@ -19,7 +19,7 @@ EXCL = {}
 # affect their oracle; a new finding added here reaches every engine at once.
 # KF-pad-wide advertises a larger shape than it produces: whatever is stacked on it (a contraction, a
 # concatenate) fails to unify chunks or produces blocks of other shapes than advertised
-RAISES = ("KF-layout-drift-over-shuffle", "KF-minmax-empty", "KF-setitem-int-with-negstep", "KF-layout-drift-over-window-reduction", "KF-pad-wide", "KF-swv-over-higher-order-diff")  # graph build / compute raises, graph not closed, or wrong block shapes
+RAISES = ("KF-layout-drift-over-shuffle", "KF-minmax-empty", "KF-setitem-int-with-negstep", "KF-layout-drift-over-window-reduction", "KF-pad-wide", "KF-swv-over-higher-order-diff", "KF-reshape-zero-size")  # graph build / compute raises, graph not closed, or wrong block shapes
 VALUES = ("KF-tensordot-int-dtype", "KF-argext-ties-axis-none")  # computes, but differs from NumPy
 ALL = RAISES + VALUES
 
@@ -112,6 +112,17 @@ def _swv_over_diff(prog, vals):
         return any(depends(a, seen) for a in prog["stmts"][v - L]["args"])
 
     return any(s["op"] in ("sliding_window_view", "swv_reduce") and any(depends(a, set()) for a in s["args"]) for s in prog["stmts"])
+
+
+@excl("KF-reshape-zero-size")
+def _reshape_zero_size(prog, vals):
+    """ravel / reshape / roll(axis=None) (which flattens and reshapes back) of a zero-size array with >= 2
+    dimensions: raises while building, or builds a graph whose reshape blocks are missing."""
+    for s, a, r in _stmts(prog, vals):
+        if s["op"] in ("ravel", "reshape") or (s["op"] == "roll" and s.get("axis") is None):
+            if a[0].size == 0 and a[0].ndim >= 2:
+                return True
+    return False
 
 
 @excl("KF-setitem-int-with-negstep")
